@@ -1041,9 +1041,8 @@ class PGPMessage(Armorable, PGPObject):
                     ops.nested = True
                 yield ops
 
+            # the modification detection code of a decrypted message belongs inside the encrypted container only
             yield self._message
-            if self._mdc is not None:  # pragma: no cover
-                yield self._mdc
 
             for sig in self._signatures:
                 yield sig
